@@ -49,7 +49,7 @@ def main():
     from vlib import model, refreader, spec as vspec
 
     main_pid = os.getpid()
-    state = dict(accepts=0, write_events=0, writes=0, result=None, writes_log=[], writes_by=[])
+    state = dict(accepts=0, write_events=0, writes=0, result=None, writes_log=[], writes_by=[], writes_text=[])
 
     def digest(exprs):
         """digest of the content *with* comments (erasing a comment is a
@@ -129,6 +129,11 @@ def main():
             state['writes'] += 1
             dg = digest(exprs)
             state['writes_by'].append(state.get('current_mutator'))
+            if plan.get('stop_on_repeat'):
+                try:
+                    state['writes_text'].append(nodeio.write_smtlib_to_str(exprs))
+                except Exception:  # noqa
+                    state['writes_text'].append(None)
             if plan.get('stop_on_repeat') and dg in state['writes_log']:
                 # the run came back to an input it had already adopted: a cycle
                 # (C03); stop here instead of looping until the wall limit
@@ -273,6 +278,10 @@ def main():
                  interrupted_in_write=state.get('interrupted_in_write'),
                  stopped=state.get('stopped', False), repeat=state.get('repeat'),
                  too_many_accepts=state.get('too_many_accepts', False))
+
+    if state.get('repeat'):
+        first_ = state['writes_log'].index(state['repeat'])
+        after['cycle_texts'] = state['writes_text'][first_:]
 
     # ------------------------------------------------------- fixpoint
     fp = plan.get('fixpoint')
